@@ -199,7 +199,7 @@ def build_cases(rep, exe, so, variant):
     r = vlib.rng(rep.seed, "C19")
     blksize = os.stat("/var/tmp").st_blksize
     quick = rep.tier == "quick"
-    nbase = 160 if quick else 1500
+    nbase = 160 if quick else 600
     bases = [gen_base(r, blksize, big=(k % 4 == 0)) for k in range(nbase)]
     free = [mk_case(variant, b) for b in bases]
     learned = [parse_impl(l) for l in impl_lines(exe, so, free, "safeWrite-learn.cases")]
